@@ -6,6 +6,7 @@ ASSUME = [
     '(a) lagging node = fresh instance that applied a prefix of the history (by replay, and restored from a snapshot of that prefix); ids queried: every id of the history +-1, 0, 2^63',
     "(a) 'not yet seen' for an id that is dead and not newer than the applied position is accepted (conservative answer); 'no such session' must imply dead-forever and id <= newest applied id",
     '(a, API tier) a node that is not the leader (two-server configuration whose other member does not exist) gets every prefix of two logs (create/delete/QUIT, index gaps) applied to its FSM and is asked through the real GET messages / POST message / DELETE handlers about every session of the whole log with the correct secret and about ids beyond the applied position: never 404 or 200 for a session not yet seen, never 404 for a live one, never 200 for an ended one',
+    '(b, network tier) the sweep itself is a loop in main(): three real robustirc binaries (internal/localnet) with SessionExpiration 3 s; an idle session must be expired by the first leader and, after that leader was killed once every node had passed a sweep interval, by the new leader too (bound 75 s each for what takes about 13 s; a wait for the network itself that runs out is inconclusive)',
     '(b) wall clock pinned by the rt engine (time.Now overlaid); services links (Reply==0) are client sessions of the API and expire like them',
     '(c) monitor on the mc exploration, bounds as C06',
 ]
@@ -14,8 +15,10 @@ RULE = ('(a) histories x prefixes x queried ids x {replayed, snapshot-restored};
 
 def prebuild():
     import apidrive
+    from checks import c05
     mcdrive.build_mc(rt=True)
     apidrive.build()
+    c05.build_net()
 
 def run(tier):
     t0 = time.time()
@@ -23,6 +26,17 @@ def run(tier):
     rtbin = mcdrive.build_mc(rt=True)
     ra = vlib.run_workers(binary, 'TestVerifC17a', vlib.NCPU)
     rb = vlib.run_workers(rtbin, 'TestVerifC17b', vlib.NCPU)
+    # network tier (runs beside the other tiers, it mostly waits): the expiry sweep of main() on three real binaries
+    import threading
+    from checks import c05
+    netres = {}
+    def net():
+        try:
+            tb, bindir = c05.build_net()
+            netres['r'] = vlib.run_workers(tb, 'TestVerifC17Net', 1, env={'PATH': bindir + os.pathsep + os.environ.get('PATH', ''), 'GOMAXPROCS': '2'})
+        except BaseException as ex:
+            netres['err'] = ex
+    th = threading.Thread(target=net); th.start()
     # API tier: what the real public handlers of a lagging, non-leader node answer
     import apidrive
     rc = vlib.run_workers(apidrive.build(), 'TestVerifC17Api', vlib.NCPU, env={'GOMAXPROCS': '2'})
@@ -37,10 +51,20 @@ def run(tier):
         for v in r.get('violations') or []:
             v['prop'] = 'C17api'  # not replayable on the state-machine engine
             viols.append(v)
+    th.join()
+    if 'err' in netres:
+        raise netres['err']
+    rnet = netres['r']
+    for r in rnet:
+        for v in r.get('violations') or []:
+            v['prop'] = 'C17net'; v['sig'] = v['sig'].replace('C05:', 'C17:', 1)
+            viols.append(v)
+    net_inconclusive = sorted(set(r['harness_error'] for r in rnet if r.get('harness_error')))
     answers = {}
     for r in rc:
         for k, c in (r.get('end_states') or {}).items(): answers[k] = answers.get(k, 0) + c
     extra = {
+        'c17net': {'networks': sum(r.get('sequences', 0) for r in rnet), 'leader_changes': sum(r.get('leader_changes', 0) for r in rnet), 'outcomes': {k: v for r in rnet for k, v in (r.get('end_states') or {}).items()}, 'inconclusive': net_inconclusive},
         'c17api': {'lagging_nodes': sum(r.get('sequences', 0) for r in rc), 'requests': sum(r.get('ops', 0) for r in rc), 'answers': answers},
         'c17a': {'histories': sum(r['histories'] for r in ra), 'prefixes': sum(r['prefixes'] for r in ra), 'queries': sum(r['queries'] for r in ra),
                  'outcomes': {k: sum(r['outcomes'].get(k, 0) for r in ra) for k in set(sum([list(r['outcomes']) for r in ra], []))},
